@@ -150,14 +150,17 @@ pub fn j_ctor(k: usize, x: f64, out: &mut Local) {
                 (e, e.to_unix_milliseconds(), TimeScale::UTC)
             }
             6 => {
+                // MJD in the scale itself: days since the scale's own zero date + the MJD of that date
                 let ts = SCALES[(x.to_bits() % 9) as usize];
+                let (zd, zt) = scales::gregorian_zero(ts);
                 let e = Epoch::from_mjd_in_time_scale(x, ts);
-                (e, e.duration.to_unit(Unit::Day) + 15_020.0, ts)
+                (e, e.duration.to_unit(Unit::Day) + (zd as f64 + zt as f64 / NS_DAY as f64) + 15_020.0, ts)
             }
             7 => {
                 let ts = SCALES[(x.to_bits() % 9) as usize];
+                let (zd, zt) = scales::gregorian_zero(ts);
                 let e = Epoch::from_jde_in_time_scale(x, ts);
-                (e, e.duration.to_unit(Unit::Day) + 2_415_020.5, ts)
+                (e, e.duration.to_unit(Unit::Day) + (zd as f64 + zt as f64 / NS_DAY as f64) + 2_415_020.5, ts)
             }
             _ => {
                 let d = x * Unit::Second;
